@@ -23,7 +23,7 @@ CLAIMS = {
  "C03": ("table agreement parser ↔ AST ↔ printer ↔ evaluator ↔ documentation (typed HIR)",
          "Every operator, modifier, radix, literal keyword, data size and encoding is compared as a table row between the grammar extracted from the nom combinators, "
          "the evaluator's arms (canonicalised expression shapes, operand order), Display, and a reference transcribed from the user guide; precedence classes, left "
-         "fold and prefix shadowing are structural; prefix operators are applied inside-out, no binary result bypasses the operator table, every identifier value passes the `<`/`>` of its own occurrence, `true`/`false` end at a word boundary and a `-` in front of `(` or `$` is a sign. Numeric results are rustc's i64 operations.", "§4 C03"),
+         "fold and prefix shadowing are structural; prefix operators are applied inside-out, no binary result bypasses the operator table, every identifier value passes the `<`/`>` of its own occurrence, `true`/`false` end at a word boundary and a `-` in front of `(` or `$` is a sign; the text encoders cut no character to a byte without having tested the character. Numeric results are rustc's i64 operations.", "§4 C03"),
  "C04": ("dominance on MIR CFG + type-directed discard detection on HIR + who-may-write table",
          "Shows for the build command that every file-creating or writing call is dominated by the no-error branches of parse and codegen and by the Ok continuation of "
          "merge_segments, that no other function may create files, that every error diagnostic built in the core carries a label unless tabled, that the failure exit "
@@ -31,7 +31,7 @@ CLAIMS = {
  "C05": ("printer/parser coverage rules on typed HIR + extracted combinator grammar",
          "Every field of every AST variant is printed; every trivia-carrying element a parser closure binds is moved, mapped or has its trivia read; elements bound to `_` "
          "consume constant text or nothing; no bound element reaches the tree only through a lossy Option combinator; swallow-all (`rest`) never occurs without a diagnostic; the file parser is all_consuming; case normalisation never touches "
-         "trivia; no parser function removes or replaces characters of source text it keeps; an optional group of parsed elements is taken apart completely (no catch-all arm over a `Some`). Partitioning of arbitrary text by the trivia parsers is not decided.", "§4 C05"),
+         "trivia; no parser function removes or replaces characters of source text it keeps; an optional group of parsed elements is taken apart completely (no catch-all arm over a `Some`); constant text is dropped only where a tree node is built that can print it back. Partitioning of arbitrary text by the trivia parsers is not decided.", "§4 C05"),
  "C06": ("interprocedural label propagation (taint) over MIR to Assert/allocation/index/loop sinks, with dominating-guard discharge",
          "Every integer the program text controls (literals, evaluated expressions, config values, SymbolData::Number) is followed, field-based and across calls, "
          "to the panicking primitives of the shipped MIR: overflow/division/shift/negation asserts, allocation sizes, indices, loop trip counts; a site is discharged "
@@ -48,7 +48,7 @@ CLAIMS = {
  "C09": ("table agreement + container-type and shape rules on HIR/MIR",
          "Config keys agree between validator, extractor and reference; banks and segments live in insertion-ordered containers and write_banks walks its Vec; the prg "
          "header bytes and defaults have the documented shape; every documented error has a diagnostic and Ok is returned only without errors; no configured option is "
-         "overwritten without an absence test; the merge places segments at (start − bank start) with min/max ranges. Offsets on concrete configurations are not decided.", "§4 C09"),
+         "overwritten without an absence test; the merge places segments at (start − bank start) with min/max ranges and never copies parts of the image over other parts (what no segment covers is fresh fill). Offsets on concrete configurations are not decided.", "§4 C09"),
  "C10": ("type-directed hash-order detection on MIR (receiver types embed their source iterator) + frozen classification table + total-sort recognition",
          "Every consumer of a std hash_map/hash_set iterator in non-test code is order-insensitive by nature, sorted on a key that identifies the element, or tabled safe "
          "with a reason; containers whose order reaches output are insertion-ordered; the CLI emitter prints diagnostics in collection order. A new unclassified site is "
@@ -58,7 +58,7 @@ CLAIMS = {
          "a physical one without the relocation offset; macro re-attribution only under the listing option and by position; half-open address lookups; no context field is overwritten before and read after a nested activation of the code generator without being restored (re-entrancy analysis); listing rows are cut at address gaps, read from the entry's own segment and written to distinct files; the row without bytes and the rows with bytes are decided on the same collection (every source line gets a row); no collection there is keyed by a target address alone; the source map is append-only as long as entries are addressed by position; distinct source paths inside the project get distinct listing files. Row layout on concrete programs is not decided.", "§4 C11"),
  "C12": ("formatter coverage and trivia-carrier rules on typed HIR + dominance on MIR",
          "Every text-carrying field of every AST variant is emitted; a Located emitted through `.data` is the token's leading element or tabled (so its comments cannot be lost); "
-         "both comment kinds become comment chunks and only blank lines are suppressed; `mos format` writes only after the whole project parsed; a chunk-dropping decision never depends on the text of the line; no Located value of an argument list is written through its data alone and no trivia list is copied selectively by item kind; a joined line is replaced by a part of itself only where the rest is blank. Token-sequence and byte "
+         "both comment kinds become comment chunks and only blank lines are suppressed; `mos format` writes only after the whole project parsed; a chunk-dropping decision never depends on the text of the line; no Located value of an argument list is written through its data alone and no trivia list is copied selectively by item kind; a joined line is replaced by a part of itself only where the rest is blank; files opened for writing are truncated. Token-sequence and byte "
          "equality after formatting are not decided.", "§4 C12"),
  "C14": ("field-effect/dominance on MIR, label propagation CLIENTPOS/BYTELEN, hash-order classification, capability table",
          "Analysis results are reset before any early return and, on every path from where a handler reads the client's text, the text is stored, the project re-analysed and diagnostics republished (must-call with wrapper summaries); diagnostics of files that left the project are withdrawn; request handlers do not mutate the shared analysis; "
@@ -76,7 +76,7 @@ CLAIMS = {
          "not decided.", "§4 C17"),
  "C18": ("field-effect analysis on MIR + table agreement + shape rules on HIR",
          "Pending assertions are never mutated during a run; CPU flag masks and register keys agree with the 6502 and the guide; ram16 byte order; failure iff zero/unevaluable, "
-         "success only at BRK after the assertions at that address; exit status 1 iff a test failed; memory accessors do not slice RAM unchecked; the assertion scan covers every pending element; relocated segments are loaded where the cpu runs them; the runner keeps only the assertions and traces of the bank it loaded. The emulator itself is external.", "§4 C18"),
+         "success only at BRK after the assertions at that address; exit status 1 iff a test failed; memory accessors do not slice RAM unchecked; the assertion scan covers every pending element; relocated segments are loaded where the cpu runs them; the runner keeps only the assertions and traces of the bank it loaded; every assertion is stored with its own copy of the symbol table. The emulator itself is external.", "§4 C18"),
  "C19": ("guard-liveness must-analysis on MIR + shape rules on HIR (lock-coverage and stepping-shape clauses)",
          "In the machine thread every CPU-advancing call happens under a running-state guard taken before the state test; pause reads the program counter under the guard that "
          "covers the store of Stopped(pc); the breakpoint test dominates every step of a free run and searches the shared list under its lock, exempting only the address the machine was halted at; next/stepIn/stepOut step under the same guard and stop through pause; next/stepOut follow the call depth (jsr/rts paired, not the stack pointer); breakpoints are kept per source file; evaluate fetches registers and flags on every path to the expression evaluator; every address range of a source line keeps its breakpoint; the adapter-backed ram() is registered only for machines without a program of their own. All other interleavings and stepping on concrete programs are not decided.", "§4 C19"),
